@@ -166,7 +166,8 @@ func genWire(r *Rand, g GenCfg) Plan {
 			}
 		}
 	}
-	if focus == "C10" || all {
+	// the byzantine signer's payload-shape deviations are hostile input too: C09 runs them all
+	if focus == "C10" || focus == "C09" || all {
 		for t := 0; t < 2; t++ {
 			if all && t == 1 {
 				break
@@ -202,7 +203,7 @@ func genWire(r *Rand, g GenCfg) Plan {
 			}
 		}
 		for i, tv := range argTypeTable {
-			if all && i%7 != 0 {
+			if focus == "C09" || (all && i%7 != 0) {
 				continue
 			}
 			add(XStep{Op: "argtype", GoT: tv[0], GoV: tv[1]})
